@@ -281,6 +281,7 @@ def outcomes_of_local(body, local, extra_transparent=None, max_iter=50):
     """Forward, flow-insensitive: follow `local` through moves/refs/transparent calls/`Not` to every switch
     that tests it.  Returns Outcomes."""
     car = {local: True}  # local -> polarity (False = negated)
+    tup_car = {}         # (tuple local, field index) -> polarity
     discr_of = {}  # discriminant-holding local -> (variants list, polarity ignored)
     changed = True
     it = 0
@@ -313,12 +314,25 @@ def outcomes_of_local(body, local, extra_transparent=None, max_iter=50):
                     if dl not in car:
                         car[dl] = car[o["p"]["l"]]
                         changed = True
+            elif k == "agg" and rv.get("agg") == "tuple":
+                # `match (a, b) { .. }`: the tuple's fields carry their operands
+                for i, o in enumerate(rv["ops"]):
+                    if isinstance(o, dict) and "p" in o and o["p"]["l"] in car and not o["p"]["proj"] and (dl, i) not in tup_car:
+                        tup_car[(dl, i)] = car[o["p"]["l"]]
+                        changed = True
             elif k == "discr":
                 o = rv["ops"][0]
                 if o["p"]["l"] in car and _transparent_field(o["p"]["proj"]):
                     if dl not in discr_of:
                         discr_of[dl] = rv["variants"]
                         changed = True
+                else:
+                    # discriminant of a tuple field that carries the value
+                    pr = [e for e in o["p"]["proj"] if e != "*"]
+                    if pr and isinstance(pr[0], dict) and "f" in pr[0] and (o["p"]["l"], pr[0]["f"]) in tup_car and _transparent_field(pr[1:]):
+                        if dl not in discr_of:
+                            discr_of[dl] = rv["variants"]
+                            changed = True
         for bi, t in body.calls():
             if t["dst"]["proj"]:
                 continue
@@ -342,7 +356,20 @@ def outcomes_of_local(body, local, extra_transparent=None, max_iter=50):
         if t["k"] != "switch":
             continue
         d = t["discr"]
-        if "p" not in d or d["p"]["proj"]:
+        if "p" not in d:
+            continue
+        if d["p"]["proj"]:
+            pr = [e for e in d["p"]["proj"] if e != "*"]
+            if len(pr) == 1 and isinstance(pr[0], dict) and "f" in pr[0] and (d["p"]["l"], pr[0]["f"]) in tup_car:
+                pol = tup_car[(d["p"]["l"], pr[0]["f"])]
+                for v, tb in t["targets"]:
+                    name = "false" if (v == "0") == pol else "true"
+                    out.edges[name].add((bi, v))
+                if all(v == "0" for v, _ in t["targets"]):
+                    out.edges["true" if pol else "false"].add((bi, "otherwise"))
+                elif all(v == "1" for v, _ in t["targets"]):
+                    out.edges["false" if pol else "true"].add((bi, "otherwise"))
+                out.switches.append(bi)
             continue
         l = d["p"]["l"]
         if l in discr_of:
@@ -595,6 +622,35 @@ def const_of(body, op, depth=0):
 def single_def(body, local):
     ds = [d for d in body.defs().get(local, []) if d["kind"] != "mutarg"]
     return ds[0] if len(ds) == 1 else None
+
+
+def resolve_agg(body, op, depth=0):
+    """the enum / struct literal an operand holds, looking through copies, references and the fields of closure / coroutine environments and
+    tuples built in the same body (an inlined `async fn` receives its arguments in such an environment); None if it is not a literal"""
+    p = op_place(op)
+    if p is None or depth > 14:
+        return None
+    pr = [e for e in p["proj"] if e != "*"]
+    df = single_def(body, p["l"])
+    if df is None or df["kind"] != "assign" or df.get("proj"):
+        return None
+    rv = df["rv"]
+    if not pr:
+        if rv["k"] == "agg" and rv.get("agg") == "adt":
+            return rv
+        if rv["k"] in ("use", "ref", "cast") and rv.get("ops"):
+            return resolve_agg(body, rv["ops"][0], depth + 1)
+        return None
+    if isinstance(pr[0], dict) and "f" in pr[0] and rv["k"] == "agg" and rv.get("agg") in ("closure", "coroutine", "tuple") and pr[0]["f"] < len(rv["ops"]):
+        o = rv["ops"][pr[0]["f"]]
+        q = op_place(o)
+        if q is None:
+            return None
+        return resolve_agg(body, {"p": {"l": q["l"], "proj": list(q["proj"]) + pr[1:]}}, depth + 1)
+    if rv["k"] in ("use", "ref") and rv.get("ops") and op_place(rv["ops"][0]) is not None:
+        q = op_place(rv["ops"][0])
+        return resolve_agg(body, {"p": {"l": q["l"], "proj": list(q["proj"]) + pr}}, depth + 1)
+    return None
 
 
 def resolve_place(body, op, depth=0):
